@@ -41,10 +41,23 @@ func TestC07_Fallback(t *testing.T) {
 	knownNeg := isKnown("C07", c07KnownNegThreshold)
 	B := constants.FuzzyNormalizationBase
 	rapid.Check(t, func(t *rapid.T) {
-		cmds, cls := gen.DB(t, gen.CmdOpts{Platforms: true, Unicode: rapid.IntRange(0, 3).Draw(t, "u") == 0}, []int{0, 1, 3, 10, 1})
+		cmds, cls := gen.DB(t, gen.CmdOpts{Platforms: true, Unicode: rapid.IntRange(0, 3).Draw(t, "u") == 0, Long: true}, []int{0, 1, 3, 10, 1})
 		db := gen.Load(t, cmds)
 		q, qc := gen.Query(t, cmds, []gen.QueryClass{"vocab", "typo", "typo", "typo", "fragment", "fragment", "one", "punct", "mixed", "unicode", "stop"})
 		q = stripNUL(q)
+		longTail := false
+		for i := range cmds {
+			// a misspelling or a fragment of the LAST word of a 300-700 byte text: only the end of the text can match it
+			if tail := gen.LongTail(&cmds[i]); tail != "" && rapid.IntRange(0, 2).Draw(t, "ask-tail") == 0 {
+				if rapid.Bool().Draw(t, "tail-typo") {
+					q = gen.Typo(t, tail)
+				} else {
+					q = tail[:rapid.IntRange(2, len(tail)-1).Draw(t, "tail-frag")]
+				}
+				qc, longTail = "long-tail", true
+				break
+			}
+		}
 		tr := true
 		opt := gen.Options(t, gen.OptSpec{N: len(cmds), BigLimit: true, FixFuzzy: &tr, Thresholds: []int{0, 0, -30, -100, 5, 40, 200}})
 		if rapid.Bool().Draw(t, "open-filters") {
@@ -67,6 +80,9 @@ func TestC07_Fallback(t *testing.T) {
 		nontrivial := false
 		if smallLimit {
 			labels = append(labels, "small-limit")
+		}
+		if longTail {
+			labels = append(labels, "long-text-tail-query")
 		}
 		if warmed > 0 {
 			labels = append(labels, "warmed-database")
